@@ -152,16 +152,45 @@ package headers
 //@   requires [slots] repoSlots(repo)
 //@   requires [root] repoRoot(repo)
 //@   ensures repoInv(repo)
-//@   modifies all
+//@   ensures repo.newHeadersChannels == old(repo.newHeadersChannels) && forall(i, 0, len(repo.newHeadersChannels), repo.newHeadersChannels[i] == old(repo.newHeadersChannels[i]))
+//@   ensures ghostv("cleaned", 0) == old(ghostv("cleaned", 0)) + 1
+//@   modifies allheap, ghost("cleaned")
 
+// IntersectHash (fork point of two ancestries) walks two parent chains in nested loops; what it returns is not
+// decided here: forkOf is an uninterpreted function of the two branches and of the branch structure it reads.
+//@ hfunc opaque forkOf(b *Branch, other *Branch) bitcoin.Hash32 reads Branch.parent, Branch.parentHeight, Branch.firstHeader, wire.BlockHeader.PrevBlock
 //@ trusted func (*Branch).IntersectHash
+//@   ensures result != nil ==> *result == forkOf(b, other)
 //@   modifies nothing
 
 //@ ufunc bitsOf(t int, max uint32) uint32
 
-//@ trusted func (*Repository).sendBranchUpdate
+// New-header stream (C07). subsOK: subscriber channels are open and pairwise distinct.
+//@ pure func subsOK(r *Repository) bool = forall(i, 0, len(r.newHeadersChannels), r.newHeadersChannels[i] != nil && !closed(r.newHeadersChannels[i])) && forall(i, 0, len(r.newHeadersChannels), forall(j, 0, len(r.newHeadersChannels), i != j ==> r.newHeadersChannels[i] != r.newHeadersChannels[j]))
+//@ pure func forkH(b *Branch, prev *Branch) int = findH(b, forkOf(b, prev))
+//@ pure func updLen(b *Branch, prev *Branch) int = ite(tipH(*b) - forkH(b, prev) > 0, tipH(*b) - forkH(b, prev), 0)
+
+// sendBranchUpdate: every subscriber receives, lowest first, exactly the headers of the new best branch's ancestry
+// above the fork height (the height of the fork hash in the new branch), up to its tip.
+//@ func (*Repository).sendBranchUpdate
+//@   requires repo != nil && branch != nil && subsOK(repo)
+//@   ensures [C07.update-count] result == nil ==> forkH(branch, previousLongest) != -1 && forall(i, 0, len(repo.newHeadersChannels), sent(repo.newHeadersChannels[i]) == old(sent(repo.newHeadersChannels[i])) + updLen(branch, previousLongest))
+//@   ensures [C07.update-order] result == nil ==> forall(i, 0, len(repo.newHeadersChannels), forallv(n, int, old(sent(repo.newHeadersChannels[i])) <= n && n < old(sent(repo.newHeadersChannels[i])) + updLen(branch, previousLongest) ==> ancv(*branch, forkH(branch, previousLongest) + 1 + n - old(sent(repo.newHeadersChannels[i]))) != nil && chanlog(repo.newHeadersChannels[i], n) == ancv(*branch, forkH(branch, previousLongest) + 1 + n - old(sent(repo.newHeadersChannels[i]))).Header))
 //@   ensures result != nil ==> errFrom(result, (*Repository).sendBranchUpdate)
+//@   ensures subsOK(repo)
 //@   modifies allchans(*wire.BlockHeader)
+//@   loop 1
+//@     modifies allchans(*wire.BlockHeader)
+//@     invariant branchHeight == forkH(branch, previousLongest) && branchHeight != -1 && height >= branchHeight + 1 && (height <= latestHeight + 1 || height == branchHeight + 1) && latestHeight == tipH(*branch) && subsOK(repo)
+//@     invariant forall(i, 0, len(repo.newHeadersChannels), sent(repo.newHeadersChannels[i]) == old(sent(repo.newHeadersChannels[i])) + (height - branchHeight - 1))
+//@     invariant forall(i, 0, len(repo.newHeadersChannels), forallv(n, int, old(sent(repo.newHeadersChannels[i])) <= n && n < old(sent(repo.newHeadersChannels[i])) + height - branchHeight - 1 ==> ancv(*branch, branchHeight + 1 + n - old(sent(repo.newHeadersChannels[i]))) != nil && chanlog(repo.newHeadersChannels[i], n) == ancv(*branch, branchHeight + 1 + n - old(sent(repo.newHeadersChannels[i]))).Header))
+//@   loop 2
+//@     modifies allchans(*wire.BlockHeader)
+//@     invariant (-1 <= rangeindex && rangeindex < len(repo.newHeadersChannels)) || (len(repo.newHeadersChannels) == 0 && rangeindex == -1)
+//@     invariant subsOK(repo) && item != nil && item == ancv(*branch, height)
+//@     invariant forall(i, 0, rangeindex+1, sent(repo.newHeadersChannels[i]) == old(sent(repo.newHeadersChannels[i])) + (height - branchHeight - 1) + 1 && chanlog(repo.newHeadersChannels[i], old(sent(repo.newHeadersChannels[i])) + (height - branchHeight - 1)) == item.Header)
+//@     invariant forall(i, rangeindex+1, len(repo.newHeadersChannels), sent(repo.newHeadersChannels[i]) == old(sent(repo.newHeadersChannels[i])) + (height - branchHeight - 1))
+//@     invariant forall(i, 0, len(repo.newHeadersChannels), forallv(n, int, old(sent(repo.newHeadersChannels[i])) <= n && n < old(sent(repo.newHeadersChannels[i])) + height - branchHeight - 1 ==> ancv(*branch, branchHeight + 1 + n - old(sent(repo.newHeadersChannels[i]))) != nil && chanlog(repo.newHeadersChannels[i], n) == ancv(*branch, branchHeight + 1 + n - old(sent(repo.newHeadersChannels[i]))).Header))
 
 // knownIn: some branch of the list knows the hash along its parent chain (the meaning of Branches.Find != nil).
 //@ pure func knownIn(bs Branches, k bitcoin.Hash32) bool = exists(i, 0, len(bs), findH(bs[i], k) != -1)
@@ -179,6 +208,7 @@ package headers
 
 //@ func (*Repository).ProcessHeader
 //@   requires repoInv(repo) && header != nil
+//@   requires subsOK(repo)
 //@   let hash = hashOf(header)
 //@   let bits = header.Bits
 //@   let prev = header.PrevBlock
@@ -207,6 +237,15 @@ package headers
 //@   ensures [C17.refused,C08.marked-invalid] result == nil && pk && !known ==> !old(markedInvalid(repo, hashOf(header)))
 //@   ensures [C08.too-deep] result == nil && pk && !known ==> old(forall(j, 0, len(repo.branches), holderAt(repo.branches, header.PrevBlock, j) ==> !tooDeep(repo, repo.branches[j], findH(repo.branches[j], header.PrevBlock), header.PrevBlock)))
 //@   ensures [C08.refusal-frame] result != nil && !errFrom(result, (*Repository).sendBranchUpdate) ==> nochange()
+// New-header stream (C07): what one submission adds to every subscriber channel. extends: the parent is the tip of
+// the branch reported as best. A refusal or duplicate adds nothing (refusal-frame / already-known above).
+//@   let extends = exists(j, 0, len(repo.branches), holderAt(repo.branches, header.PrevBlock, j) && repo.branches[j] == repo.longest && last(*repo.branches[j]).Hash == header.PrevBlock)
+//@   lemma [C07.lemma-new-branch-not-extension] before NewBranch: !extends
+//@   ensures [C07.subscribers-kept] subsOK(repo)
+//@   ensures [C07.extension-one-header] result == nil && !known && extends ==> forall(i, 0, len(repo.newHeadersChannels), sent(repo.newHeadersChannels[i]) == old(sent(repo.newHeadersChannels[i])) + 1 && chanlog(repo.newHeadersChannels[i], old(sent(repo.newHeadersChannels[i]))) == header)
+//@   ensures [C07.side-branch-silent] result == nil && !extends && repo.longest == old(repo.longest) && ghostv("cleaned", 0) == old(ghostv("cleaned", 0)) ==> forall(i, 0, len(repo.newHeadersChannels), sent(repo.newHeadersChannels[i]) == old(sent(repo.newHeadersChannels[i])))
+//@   ensures [C07.reorg-branch-update] result == nil && !known && !extends && repo.longest != old(repo.longest) && ghostv("cleaned", 0) == old(ghostv("cleaned", 0)) ==> forkH(repo.longest, old(repo.longest)) != -1 && forall(i, 0, len(repo.newHeadersChannels), sent(repo.newHeadersChannels[i]) == old(sent(repo.newHeadersChannels[i])) + updLen(repo.longest, old(repo.longest)))
+//@   ensures [C07.reorg-order] result == nil && !known && !extends && repo.longest != old(repo.longest) && ghostv("cleaned", 0) == old(ghostv("cleaned", 0)) ==> forall(i, 0, len(repo.newHeadersChannels), forallv(n, int, old(sent(repo.newHeadersChannels[i])) <= n && n < old(sent(repo.newHeadersChannels[i])) + updLen(repo.longest, old(repo.longest)) ==> ancv(*repo.longest, forkH(repo.longest, old(repo.longest)) + 1 + n - old(sent(repo.newHeadersChannels[i]))) != nil && chanlog(repo.newHeadersChannels[i], n) == ancv(*repo.longest, forkH(repo.longest, old(repo.longest)) + 1 + n - old(sent(repo.newHeadersChannels[i]))).Header))
 // Lemmas: what the verdict table says about the entry state is established by the checks that precede the mutation.
 // Each is proved once, just before the branch is extended or created; the returns after the mutation are then first
 // tried from the lemmas alone (a small query), and from the whole path only if that does not succeed.
@@ -231,6 +270,9 @@ package headers
 //@   loop 4
 //@     modifies allchans(*wire.BlockHeader)
 //@     invariant (-1 <= rangeindex && rangeindex < len(repo.newHeadersChannels)) || (len(repo.newHeadersChannels) == 0 && rangeindex == -1)
+//@     invariant subsOK(repo)
+//@     invariant forall(i, 0, rangeindex+1, sent(repo.newHeadersChannels[i]) == old(sent(repo.newHeadersChannels[i])) + 1 && chanlog(repo.newHeadersChannels[i], old(sent(repo.newHeadersChannels[i]))) == header)
+//@     invariant forall(i, rangeindex+1, len(repo.newHeadersChannels), sent(repo.newHeadersChannels[i]) == old(sent(repo.newHeadersChannels[i])))
 
 // ---------------------------------------------------------------------------------------------------
 // Proof of work (C02). The oracle is the network's difficulty adjustment algorithm: median-of-three endpoints
